@@ -196,7 +196,7 @@ def dump_vars(dump):
     return vs
 
 
-GEN_NAME = re.compile(r"^_[A-Za-z]+\d+$")
+GEN_NAME = re.compile(r"^_+[A-Za-z]+\d+$")
 
 
 def flat_key(flat):
@@ -295,7 +295,7 @@ def program_tasks(ctx, progs):
 def alpha_term(term):
     """generated names in a Coq term renamed by first occurrence (to recognise identical cases)"""
     ren = {}
-    return re.sub(r'"(_[A-Za-z]+\d+)"', lambda m: '"%s"' % ren.setdefault(m.group(1), f"_g{len(ren)}"), term)
+    return re.sub(r'"(_+[A-Za-z]+\d+)"', lambda m: '"%s"' % ren.setdefault(m.group(1), f"_g{len(ren)}"), term)
 
 
 def process_programs(ctx, progs, tasks, meta, results, exact, n_oracle):
